@@ -91,3 +91,9 @@ Print Assumptions C03_helpers.
 Theorem C03_parse_total : forall s, exists r, parse_event s = Ok r.
 Proof. exact parse_event_total. Qed.
 Print Assumptions C03_parse_total.
+
+(* Commands.SendRaw: the model never panics; the events it hands to Send are events, so
+   C03_send_lines / C03_send_stream / C03_command apply to them as to any other. *)
+Theorem C03_send_raw_total : forall raws, exists evs, send_raw_events raws = Ok evs.
+Proof. exact send_raw_total. Qed.
+Print Assumptions C03_send_raw_total.
